@@ -425,8 +425,9 @@ def evaluate(method: str, headers, size: int, last_modified: int, etag: str) -> 
                 if kcls == "if_match_false":
                     kcls = "if_match_malformed"
             if empties:
-                # empty list elements, which a recipient must skip, are not malformed: judged strictly, own class
-                cls, kcls = "empty_list_element:" + cls, kcls + ":empty_list_element"
+                # empty list elements, which a recipient must skip, are not malformed: judged strictly. (They had a key
+                # class of their own, C15-F7, until the etag list parser was repaired.)
+                cls = "empty_list_element:" + cls
             alts.append(Expect(e.outcomes, cls, kcls))
     exp = alts[0]
     if len(alts) > 1:
@@ -758,8 +759,8 @@ def oracle_selftest():
     assert evaluate("GET", [("If-Match", "tag")], 10, lm, "tag").key_cls == "if_match_malformed"
     assert etag_field_empty_elements(', "a"') == 1 and etag_field_empty_elements('"a",, "b",') == 1 and etag_field_empty_elements('"a", "b",') == 0
     assert E([("If-Match", ', "tag"')]) == [FU] and E([("If-None-Match", '"x",,W/"tag"')]) == [NM] and E([("If-Match", ', "x"')]) == [PF]
-    assert evaluate("GET", [("If-None-Match", ', "tag"')], 10, lm, "tag").key_cls == "if_none_match_false:empty_list_element"
-    assert evaluate("GET", [("If-None-Match", ', tag')], 10, lm, "tag").key_cls == "no_range:empty_list_element"
+    assert evaluate("GET", [("If-None-Match", ', "tag"')], 10, lm, "tag").key_cls == "if_none_match_false"
+    assert evaluate("GET", [("If-None-Match", ', tag')], 10, lm, "tag").key_cls == "no_range"
     assert evaluate("GET", [("If-Match", '"x"')], 10, lm, "tag").key_cls == "if_match_false"
     assert E([("Range", "bytes=2-3")]) == [O("partial", 2, 4)]
     assert E([("Range", "bytes=2-3"), ("If-Range", '"tag"')]) == [O("partial", 2, 4)]
